@@ -568,6 +568,14 @@ func (a *Agent) gatherCandidatesLocalUDPMux(ctx context.Context) error { //nolin
 		}
 
 		for _, candidateIP := range candidateIPs {
+			// The mux may listen on address families whose UDP network type is not enabled.
+			if ipAddr, ok := netip.AddrFromSlice(candidateIP); ok {
+				if networkType, err := determineNetworkType(udp, ipAddr); err != nil ||
+					!slices.Contains(configuredNetworkTypes(a.networkTypes), networkType) {
+					continue
+				}
+			}
+
 			var address string
 			var isLocationTracked bool
 			if a.mDNSMode == MulticastDNSModeQueryAndGather {
